@@ -160,7 +160,9 @@ void h_read_ttl(void)
 #define E_OK (FOFF + 12 <= TL && E_VL <= REC_CAP && FOFF + 12 + E_VL + 4 <= TL)
 /* X: exp64 | crc */
 #define X_OK (FOFF + 12 <= TL)
-#define PLAUSIBLE(ms) ((ms) > 0 && (ms) <= 10413792000000LL)
+/* the window's ceiling is the constant extracted from the header (a changed limit is seen); unit kv_expiry pins what it may be: every expiry
+ * the store can write is inside (P2) and every value inside is representable as a time_point (P3) */
+#define PLAUSIBLE(ms) ((ms) > 0 && (ms) <= kMaxPlausibleEpochMs)
 /* BPRE: what is assumed about the boundary b.  The framing and safety proofs take ANY b <= n.  The decode proofs view the file from the
  * boundary (b == 0, LOG = the rest of the file): the stream shim depends on (p + pos, n - pos) only, so this is no restriction, and it removes
  * one 64-bit addition from every array index (measured: E1 88 s -> 6 s). */
